@@ -17,8 +17,10 @@ E = {
          "expression is proved to be a union of cells of the arrangement of the operands' boundaries (C01_cellwise), and | and & of two "
          "simple polygons in the recombination branch are proved sound (C01_union_sound, C01_intersection_sound, C01_difference_sound); for "
          "strictly convex operands (triangles included) simplicity itself is proved (C01_convex_simple), so every hypothesis of "
-         "C01_*_sound_convex is a boolean the check evaluates on generated cases. The geometric "
-         "heart for operands with holes / several components stays a named premise (partial). The tie to the code and the property itself "
+         "C01_*_sound_convex is a boolean the check evaluates on generated cases; the same one-step soundness is proved for bounded operands with "
+         "holes and several components (C01_*_sound_multi), with its simplicity hypothesis valid01 proved for shapes made of convex polygons with convex holes "
+         "(C01_*_sound_multi_convex: only boolean hypotheses). For non-convex operands simplicity stays a named premise (the Jordan curve theorem), as do `^` and "
+         "unbounded operands in the recombination branch (partial). The tie to the code and the property itself "
          "are checked on every run: model vs implementation on generated general-position operands and nested expressions, and an exact "
          "oracle that evaluates membership at one point of every cell of the edge arrangement.", "7 C01"),
  "C02": ("Theorem C02_polygon: for every polygonal shape of every kind, every point and flag, contains_point equals the region "
@@ -33,7 +35,7 @@ E = {
          "for non-convex polygons and holes the area/orientation case analysis of simple-in-simple is not proved (partial; three defects found there were repaired: F10, F11, F22). "
          "Correspondence on all ordered pairs of a pool of shapes, touching boundaries and curved contents + exact subset oracle on every run.", "7 C03"),
  "C04": ("Theorem C04_polygon: for all polygonal shapes of all kinds and a+b <= 14 the quadrature value equals the formal trapezoid "
-         "integrals (moment_spec); Newton-Cotes exactness proved up to 19 nodes; area = shoelace; reversal negates. Curved boundaries: the coordinates of a Bezier segment are polynomials in t and since the repair "
+         "integrals (moment_spec); Newton-Cotes exactness proved up to 19 nodes; area = shoelace; reversal negates; the specification itself is tied to the closed-form integrals over triangles by ear additivity / the fan formula (C04_fan). Curved boundaries: the coordinates of a Bezier segment are polynomials in t and since the repair "
          "of F29 (found by these proofs) the rule is EXACT for every exponent pair whose node count max(4+a+b+d, d(a+b+2)) is within the 19-node table "
          "(C04_curved_moments: cubics to order 4, quadratics to order 7, areas to degree 9); the unrepaired node count is refuted on a cubic first moment. "
          "The library's curved moments are compared exactly with the model's on every run. Correspondence + independent formula (sweep to the other axis) on every run.", "7 C04"),
@@ -48,7 +50,9 @@ E = {
  "C07": ("Model of all four __eq__; proved: different kinds compare unequal, == never runs out of fuel and returns a bool on well-formed "
          "polygons, reflexive and start-vertex independent on cleaned polygons, SOUND (a == b implies equal winding numbers, area, boundary "
          "and region when the 1e-9 tolerance cannot confuse control points), symmetric for long pairwise different edges and refuted on a "
-         "repeated edge. Completeness, transitivity and composite shapes are checked on pools of variants by the oracle (exact region "
+         "repeated edge; CHARACTERISED under three decidable premises (== iff same cleaned cycle up to the start vertex), hence an equivalence relation there, and "
+         "complete for every change of representation the property names (C07_characterisation, C07_equivalence, C07_complete_representations); transitivity refuted below the tolerance. "
+         "'Same region implies same cleaned polygon' for two different polygons and composite shapes are checked on pools of variants by the oracle (exact region "
          "equality) -- partial; known finding F9.", "7 C07"),
  "C08": ("Heap model MH (identity, sharing, in-place mutation): proved frame theorem -- mutating one object leaves every separated "
          "object's geometry unchanged -- and freshness of results, for every history (induction over the operation list). Tied to the "
@@ -71,8 +75,8 @@ E = {
          "closing tests agree; coordinates are stored unchanged when the denominator is <= 1e9. Exactness of derived values is C14/C15/C04. "
          "Types and exact values of every number are checked on the implementation on every run.", "7 C13"),
  "C14": ("Proved for all polygonal curves: index ranges, parameters in [0,1] with exactly equal points, every common point of two "
-         "non-parallel segments is reported, None rows only for equal segments, swap symmetry, flag semantics, never raises. Curved "
-         "crossings and parity: oracle only (partial).", "7 C14"),
+         "non-parallel segments is reported, None rows only for equal segments, swap symmetry, flag semantics, never raises. The number of crossings of two closed polygons with no vertex on each other is EVEN and "
+         "equals the number of rows reported (C14_even, C14_rows_are_crossings; boolean hypotheses evaluated per case). Curved crossings: oracle only (partial).", "7 C14"),
  "C15": ("Proved for straight segments: pieces retrace, junctions lie at the split parameters, no zero-length piece, area and winding "
          "number unchanged, closedness preserved, split is TOTAL on valid requests (repeated / nearly equal parameters merged), clean "
          "idempotent and complete. Curved segments of degree <= 6: pieces and exactly cleaned pieces retrace positions and velocities, every split keeps the area and every boundary integral the library computes (C15_curved_*); the library's inexact least-squares degree reduction (<= 1e-9) is outside the model (set aside, judged at the property's tolerance). F15/F15c/F25/F29 repaired; known finding F15b.", "7 C15"),
